@@ -163,7 +163,22 @@ func sweepPhase(t reflect.Type, phase int) (obs []string) {
 			b, err := gojson.Marshal(reflect.New(t).Interface())
 			return fmt.Sprintf("err=%q out=%s", normErr(err), short(b))
 		})
+		if fv, ok := richValue(t); ok {
+			step("marshal_filled", func() string {
+				b, err := gojson.Marshal(fv.Interface())
+				return fmt.Sprintf("err=%q out=%s", normErr(err), short(b))
+			})
+		}
 		return obs
+	}
+	if fv, ok := richValue(t); ok {
+		if doc, err := safeStdMarshal(fv.Interface()); err == nil {
+			step("unmarshal_filled", func() string {
+				p := reflect.New(t)
+				err := gojson.Unmarshal(doc, p.Interface())
+				return fmt.Sprintf("err=%q val=%s", normErr(err), clipS(DumpValue(p.Elem()), 600))
+			})
+		}
 	}
 	for _, d := range sweepDoc(t) {
 		d := d
@@ -174,6 +189,121 @@ func sweepPhase(t reflect.Type, phase int) (obs []string) {
 		})
 	}
 	return obs
+}
+
+type boundaryType struct {
+	Addr  uintptr
+	T     reflect.Type
+	InPop bool
+}
+
+// boundaryTypes: the k lowest and k highest descriptors of the address window
+// go-json derives from the type table (the table's entries and, for pointer
+// types, their element types), whatever they are.
+func boundaryTypes(k int) []boundaryType {
+	sections, offsets := typelinks()
+	seen := map[uintptr]reflect.Type{}
+	for si, sec := range sections {
+		for _, off := range offsets[si] {
+			tp := rtypeOff(sec, off)
+			var x interface{}
+			(*eface)(unsafe.Pointer(&x)).typ = tp
+			rt := reflect.TypeOf(x)
+			seen[uintptr(tp)] = rt
+			if rt.Kind() == reflect.Ptr {
+				var y interface{} = reflect.Zero(rt).Interface()
+				_ = y
+				e := rt.Elem()
+				seen[typeAddrOf(e)] = e
+			}
+		}
+	}
+	var addrs []uintptr
+	for a := range seen {
+		addrs = append(addrs, a)
+	}
+	sort.Slice(addrs, func(i, j int) bool { return addrs[i] < addrs[j] })
+	pop := map[reflect.Type]bool{}
+	for _, st := range loadSweepTypes() {
+		pop[st.T] = true
+		pop[reflect.PointerTo(st.T)] = true
+	}
+	var out []boundaryType
+	for i, a := range addrs {
+		if i < k || i >= len(addrs)-k {
+			out = append(out, boundaryType{Addr: a, T: seen[a], InPop: pop[seen[a]]})
+		}
+	}
+	return out
+}
+
+// typeAddrOf: address of the descriptor of t.
+func typeAddrOf(t reflect.Type) uintptr {
+	// reflect.Type is an interface holding *rtype: its data word is the descriptor
+	return uintptr((*eface)(unsafe.Pointer(&t)).data)
+}
+
+// richSafe: types the generic filler can fill without surprises (no callbacks,
+// no non-empty interfaces, no unexported or foreign parts): the generated and
+// catalogue types and everything reflect builds from them.
+func richSafe(t reflect.Type, depth int) bool {
+	if depth > 6 || cbTypes[t] {
+		return false
+	}
+	if pp := t.PkgPath(); pp != "" && pp != "vsim/worker" {
+		return false
+	}
+	switch t.Kind() {
+	case reflect.Bool, reflect.Int, reflect.Int8, reflect.Int16, reflect.Int32, reflect.Int64,
+		reflect.Uint, reflect.Uint8, reflect.Uint16, reflect.Uint32, reflect.Uint64,
+		reflect.Float32, reflect.Float64, reflect.String:
+		return true
+	case reflect.Ptr, reflect.Slice, reflect.Array:
+		return richSafe(t.Elem(), depth+1)
+	case reflect.Map:
+		return t.Key().Kind() == reflect.String && t.Key().PkgPath() == "" && richSafe(t.Elem(), depth+1)
+	case reflect.Struct:
+		if t.NumField() == 0 {
+			return false
+		}
+		for i := 0; i < t.NumField(); i++ {
+			f := t.Field(i)
+			if f.PkgPath != "" || !richSafe(f.Type, depth+1) {
+				return false
+			}
+		}
+		return true
+	}
+	return false
+}
+
+var richMemo = map[reflect.Type]*reflect.Value{}
+
+// richValue: a filled value of the type, the same in every process (seeded by
+// the type's own text), so that a program compiled for another type shows in
+// what is encoded or decoded, not only at the identity assertion.
+func richValue(t reflect.Type) (v reflect.Value, ok bool) {
+	if m, hit := richMemo[t]; hit {
+		if m == nil {
+			return reflect.Value{}, false
+		}
+		return *m, true
+	}
+	richMemo[t] = nil
+	if !richSafe(t, 0) {
+		return reflect.Value{}, false
+	}
+	defer func() {
+		if r := recover(); r != nil {
+			ok = false
+		}
+	}()
+	f := &filler{r: plan.Derive(0x5EED, hashName(t.String()))}
+	v = reflect.New(t).Elem()
+	f.fill(v, 0)
+	richMemo[t] = &v
+	Probe("sweep_filled_value")
+	return v, true
 }
 
 func sweepOne(t reflect.Type) (obs []string) {
@@ -204,12 +334,109 @@ func pushHeap(r *plan.Rng) {
 	}
 }
 
-func reflectTypes(n int, seed uint64) []reflect.Type {
+// frontier64 allocates one pointer-bearing 64-byte object (the size class of
+// the pointer-type descriptors reflect creates) and returns the low 32 bits
+// of its address.
+func frontier64() uintptr {
+	p := new([8]*byte)
+	ballastSmall = append(ballastSmall, p)
+	return uintptr(unsafe.Pointer(p)) & 0xffffffff
+}
+
+// advanceHeapToTypeWindow moves the heap forward until new small objects get
+// addresses whose low 32 bits lie just below the window of the binary's own
+// type descriptors. Reports whether that was possible (not in PIE builds with
+// an unlucky load address, not if the heap is already beyond the window).
+func advanceHeapToTypeWindow() bool {
+	lo, hi := typeWindow()
+	lo &= 0xffffffff
+	hi &= 0xffffffff
+	f := frontier64()
+	if hi <= lo || f+(64<<10) > lo || lo-f > 192<<20 {
+		Probe("alias32_window_unreachable")
+		return false
+	}
+	for guard := 0; f+(160<<10) < lo && guard < 4096; guard++ {
+		ballast = append(ballast, make([]byte, 64<<10))
+		for i := 0; i < 130; i++ {
+			frontier64()
+		}
+		f = frontier64()
+	}
+	for guard := 0; f+(24<<10) < lo && guard < 4096; guard++ {
+		for i := 0; i < 130; i++ {
+			frontier64()
+		}
+		f = frontier64()
+	}
+	Probe("alias32_window_reached")
+	return true
+}
+
+// typeWindow: lowest and highest descriptor address of the binary's type table
+// (entries and, for pointer types, their element types), computed without
+// allocating, the way go-json derives its cache window.
+func typeWindow() (lo, hi uintptr) {
+	lo = ^uintptr(0)
+	sections, offsets := typelinks()
+	for si, sec := range sections {
+		for _, off := range offsets[si] {
+			tp := rtypeOff(sec, off)
+			a := uintptr(tp)
+			if a < lo {
+				lo = a
+			}
+			if a > hi {
+				hi = a
+			}
+			var t reflect.Type
+			e := (*eface)(unsafe.Pointer(&t))
+			*e = *(*eface)(unsafe.Pointer(&typeOfType))
+			e.data = tp
+			if t.Kind() == reflect.Ptr {
+				a = typeAddrOf(t.Elem())
+				if a < lo {
+					lo = a
+				}
+				if a > hi {
+					hi = a
+				}
+			}
+		}
+	}
+	return
+}
+
+// typeOfType: any reflect.Type value (for its interface table word).
+var typeOfType = reflect.TypeOf(0)
+
+// lightPush: a little filler in the small pointer-bearing size classes, so
+// that consecutive run-time descriptors walk slowly through the window.
+func lightPush(r *plan.Rng) {
+	for _, words := range []int{8, 10, 12, 14, 16, 20, 24} {
+		for i := r.Intn(14); i > 0; i-- {
+			ballastSmall = append(ballastSmall, make([]*byte, words))
+		}
+	}
+}
+
+func reflectTypes(n int, seed uint64, alias bool, place bool) []reflect.Type {
 	r := plan.NewRng(seed)
+	pr := plan.NewRng(seed ^ 0x91ACE)
+	if alias {
+		r = plan.NewRng(uint64(n)*7919 + seed%4)
+		if place {
+			place = advanceHeapToTypeWindow()
+		}
+	}
 	base := []reflect.Type{reflect.TypeOf(0), reflect.TypeOf(""), reflect.TypeOf(true), reflect.TypeOf(1.5), reflect.TypeOf(Small{}), reflect.TypeOf([]int(nil)), reflect.TypeOf(Leaf{})}
 	var out []reflect.Type
 	for i := 0; i < n; i++ {
-		if i > 0 {
+		if alias {
+			if place {
+				lightPush(pr)
+			}
+		} else if i > 0 {
 			pushHeap(r)
 		}
 		b := base[r.Intn(len(base))]
@@ -230,19 +457,56 @@ func reflectTypes(n int, seed uint64) []reflect.Type {
 		default:
 			out = append(out, reflect.PointerTo(reflect.ArrayOf(r.Range(91, 140), b)))
 		}
+		// the descriptor of the pointer type (the key of the decoder cache) is
+		// created here and now, next to the type's own
+		reflect.PointerTo(out[len(out)-1])
+	}
+	if alias && place && len(out) > 0 {
+		lo, hi := typeWindow()
+		lo &= 0xffffffff
+		hi &= 0xffffffff
+		in := 0
+		for _, rt := range out {
+			var y interface{} = reflect.New(rt).Interface()
+			a := uintptr((*eface)(unsafe.Pointer(&y)).typ) & 0xffffffff
+			if a >= lo && a <= hi {
+				in++
+			}
+		}
+		CountN("alias32_descriptors_in_window", int64(in))
 	}
 	return out
 }
 
 func execSweep(p *plan.Plan, res *plan.Result) {
-	types := loadSweepTypes()
 	sw := p.Sweep
+	// run-time types first: the placement adversary needs a heap that has not
+	// yet grown past the window (reading the population allocates a lot)
+	rts := reflectTypes(sw.Reflect, sw.Seed^0xABCD, sw.Alias32, len(sw.OnlyR) == 0 && len(sw.Only) == 0 && len(sw.OnlyName) == 0)
+	types := loadSweepTypes()
 	res.Obs = map[string][]string{}
 	excl := map[int]bool{}
 	for _, e := range sw.Exclude {
 		excl[e] = true
 	}
 	var order []int
+	if len(sw.OnlyName) > 0 {
+		byName := map[string]int{}
+		for i, st := range types {
+			byName[qualName(st.T)] = i
+		}
+		for _, nm := range sw.OnlyName {
+			idx, ok := byName[nm]
+			if !ok {
+				continue // not part of this binary's population
+			}
+			res.Obs["n:"+nm] = sweepOne(types[idx].T)
+			res.Cases++
+			res.Steps += 6
+		}
+		Probe("population_cross_batch")
+		return
+	}
 	if len(sw.Only) > 0 {
 		order = append(order, sw.Only...)
 	} else {
@@ -269,7 +533,6 @@ func execSweep(p *plan.Plan, res *plan.Result) {
 			order = order[:sw.Limit]
 		}
 	}
-	rts := reflectTypes(sw.Reflect, sw.Seed^0xABCD)
 	if os.Getenv("VERIF_DEBUG_ADDR") != "" {
 		for i, rt := range rts {
 			var y interface{} = reflect.Zero(rt).Interface()
@@ -277,6 +540,9 @@ func execSweep(p *plan.Plan, res *plan.Result) {
 		}
 		ts := loadSweepTypes()
 		fmt.Fprintf(os.Stderr, "table %#x .. %#x\n", ts[0].Addr, ts[len(ts)-1].Addr)
+		for _, bt := range boundaryTypes(3) {
+			fmt.Fprintf(os.Stderr, "boundary descriptor at %#x: %s (in population: %v)\n", bt.Addr, bt.T.String(), bt.InPop)
+		}
 	}
 	for _, i := range sw.OnlyR {
 		if i >= 0 && i < len(rts) {
@@ -334,6 +600,18 @@ func execSweep(p *plan.Plan, res *plan.Result) {
 	lo, hi := verifsim.IdentityStats()
 	CountN("cache_returns_checked", int64(lo))
 	CountN("distinct_programs", int64(hi))
+}
+
+// qualName identifies a type across binaries.
+func qualName(t reflect.Type) string { return t.PkgPath() + "|" + t.String() }
+
+// sweepNames: the population by name, in index order.
+func sweepNames() []string {
+	var out []string
+	for _, st := range loadSweepTypes() {
+		out = append(out, qualName(st.T))
+	}
+	return out
 }
 
 // DescribeTypes prints the sweep population size.
